@@ -1,0 +1,9 @@
+//go:build verif
+
+package run
+
+// ReloadForVerif triggers a configuration reload synchronously, exactly as the SIGHUP handler does, so that
+// verification harnesses can place reloads at chosen moments.
+func (orc *ReloadableOrchestrator) ReloadForVerif() {
+	orc.reload()
+}
